@@ -815,3 +815,145 @@ Proof.
   destruct (run_schedule _ queue_except_skips s [] [] None W Sk Inv_init) as [outs [buf' [w' [E1 [E2 _]]]]].
   exists outs, (buf', w'). split; assumption.
 Qed.
+
+(* ================================================================ C18: the pending wrapper *)
+
+Definition cell_fresh (c : option ais_sentence) : Prop :=
+  match c with Some x => a_wrapper x = None | None => True end.
+
+Definition buf_fresh (b : asm_buffer) : Prop := Forall (fun kv => Forall cell_fresh (snd kv)) b.
+
+Lemma buf_fresh_get : forall b s arr, buf_fresh b -> buf_get b s = Some arr -> Forall cell_fresh arr.
+Proof.
+  induction b as [|[k v] r IH]; intros s arr F H; simpl in H; [discriminate|].
+  inversion F as [|? ? F1 F2]; subst. destruct (slot_eqb s k).
+  - inversion H; subst. exact F1.
+  - apply IH with s; assumption.
+Qed.
+
+Lemma buf_fresh_set : forall b s arr, buf_fresh b -> Forall cell_fresh arr -> buf_fresh (buf_set b s arr).
+Proof.
+  induction b as [|[k v] r IH]; intros s arr F A; simpl.
+  - constructor; [exact A|constructor].
+  - inversion F as [|? ? F1 F2]; subst. destruct (slot_eqb s k); constructor; auto. apply IH; assumption.
+Qed.
+
+Lemma buf_fresh_del : forall b s, buf_fresh b -> buf_fresh (buf_del b s).
+Proof.
+  induction b as [|[k v] r IH]; intros s F; simpl; [constructor|].
+  inversion F as [|? ? F1 F2]; subst. destruct (slot_eqb s k); [exact F2|]. constructor; auto. apply IH. exact F2.
+Qed.
+
+Lemma list_set_Forall : forall A (P : A -> Prop) l k x, Forall P l -> P x -> Forall P (list_set l k x).
+Proof.
+  induction l as [|a l IH]; intros [|k] x F Px; simpl; auto; inversion F; subst; constructor; auto.
+Qed.
+
+Lemma py_setitem_Forall : forall A (P : A -> Prop) l i x l', py_setitem l i x = Ok l' -> Forall P l -> P x -> Forall P l'.
+Proof.
+  intros A P l i x l' H F Px. unfold py_setitem in H. destruct (py_index (py_len l) i); [|discriminate].
+  inversion H; subst. apply list_set_Forall; assumption.
+Qed.
+
+Lemma firstn_Forall : forall A (P : A -> Prop) n l, Forall P l -> Forall P (firstn n l).
+Proof. induction n as [|n IH]; intros [|a l] F; simpl; auto. inversion F; subst. constructor; auto. Qed.
+
+Lemma skipn_Forall : forall A (P : A -> Prop) n l, Forall P l -> Forall P (skipn n l).
+Proof. induction n as [|n IH]; intros [|a l] F; simpl; auto. inversion F; subst. auto. Qed.
+
+Lemma not_none_fresh : forall l, Forall cell_fresh l -> Forall (fun x => a_wrapper x = None) (not_none l).
+Proof.
+  induction l as [|[x|] l IH]; intro F; simpl; [constructor| |]; inversion F; subst; auto.
+Qed.
+
+Lemma repeat_Forall : forall A (P : A -> Prop) x n, P x -> Forall P (repeat x n).
+Proof. induction n; intro; simpl; constructor; auto. Qed.
+
+Lemma assemble_wrapper : forall parts full, assemble_from_iterable parts = Ok full ->
+  Forall (fun x => a_wrapper x = None) parts -> a_wrapper full = None.
+Proof.
+  intros parts full H F. unfold assemble_from_iterable in H. destruct parts as [|first r]; [discriminate|].
+  inversion H; subst. inversion F; subst. assumption.
+Qed.
+
+Lemma buffer_step_fresh : forall buf msg buf' o, buf_fresh buf -> a_wrapper msg = None ->
+  buffer_step buf msg = Ok (buf', o) ->
+  buf_fresh buf' /\ match o with Some full => a_wrapper full = None | None => True end.
+Proof.
+  intros buf msg buf' o F Fm H. unfold buffer_step in H.
+  set (slot := slot_of msg) in *.
+  set (buffer1 := if negb (buf_mem buf slot) then buf_set buf slot (py_repeat None (Z.max (a_frag_cnt msg) 255)) else buf) in *.
+  assert (F1 : buf_fresh buffer1).
+  { unfold buffer1. destruct (negb (buf_mem buf slot)); [|exact F]. apply buf_fresh_set; [exact F|].
+    apply repeat_Forall. exact I. }
+  destruct (buf_get buffer1 slot) as [arr|] eqn:E; [|discriminate].
+  destruct (py_setitem arr (a_frag_num msg - 1) (Some msg)) as [arr'|e] eqn:E2; [|discriminate].
+  assert (Fa : Forall cell_fresh arr') by (apply (py_setitem_Forall _ _ _ _ _ _ E2); [apply (buf_fresh_get _ _ _ F1 E)|exact Fm]).
+  destruct (py_len (not_none (py_slice arr' 0 (a_frag_cnt msg))) =? a_frag_cnt msg).
+  - destruct (assemble_from_iterable _) as [full|e] eqn:E3; [|discriminate]. inversion H; subst.
+    split; [apply buf_fresh_del; apply buf_fresh_set; assumption|].
+    apply (assemble_wrapper _ _ E3). apply not_none_fresh. unfold py_slice. apply firstn_Forall. apply skipn_Forall. exact Fa.
+  - inversion H; subst. split; [apply buf_fresh_set; assumption|exact I].
+Qed.
+
+Lemma attach_wrapper : forall w a, a_wrapper a = None -> a_wrapper (attach w a) = w.
+Proof. intros [g|] a H; simpl; auto. Qed.
+
+(* what one step does to the pending wrapper *)
+Lemma generic_step_wrapper : forall hs buf w p t st' out,
+  buf_fresh buf -> fresh_line (p, t) -> generic_step hs (buf, w) p t = Ok (st', out) ->
+  buf_fresh (fst st') /\
+  map a_wrapper out :: spec_wrapper_from (snd st') [] =
+    match line_event (p, t) (has_delivery out) with
+    | EWrap g => [[]] | EDeliver => [[w]] | ENone => [[]]
+    end /\
+  snd st' = match line_event (p, t) (has_delivery out) with
+            | EWrap g => Some g | EDeliver => None | ENone => w
+            end.
+Proof.
+  intros hs buf w p t st' out F Fl H. unfold generic_step in H.
+  destruct p as [s|e].
+  2:{ destruct (catches hs e); inversion H; subst. simpl. auto. }
+  destruct t as [e|].
+  { destruct (catches hs e); inversion H; subst. simpl. destruct s; auto. }
+  destruct s as [msg|g].
+  2:{ inversion H; subst. simpl. auto. }
+  simpl in Fl. unfold ais_step in H. destruct (is_single msg).
+  - inversion H; subst. simpl. rewrite attach_wrapper by exact Fl. auto.
+  - destruct (buffer_step buf msg) as [[buf' o]|e] eqn:E; [|discriminate].
+    destruct (buffer_step_fresh _ _ _ _ F Fl E) as [F' Fo].
+    destruct o as [full|]; inversion H; subst; simpl.
+    + rewrite attach_wrapper by exact Fo. auto.
+    + auto.
+Qed.
+
+Lemma run_wrappers : forall hs ins buf w, buf_fresh buf -> Forall fresh_line ins ->
+  map (map a_wrapper) (fst (asm_run (generic_step hs) (buf, w) ins)) =
+  spec_wrapper_from w (events ins (map has_delivery (fst (asm_run (generic_step hs) (buf, w) ins)))).
+Proof.
+  intros hs. induction ins as [|[p t] ins IH]; intros buf w F Fl; [reflexivity|].
+  inversion Fl as [|? ? Fl1 Fl2]; subst. simpl asm_run.
+  destruct (generic_step hs (buf, w) p t) as [[st' out]|e] eqn:E; [|reflexivity].
+  destruct (generic_step_wrapper _ _ _ _ _ _ _ F Fl1 E) as [F' [H1 H2]].
+  destruct st' as [buf' w']. simpl in F', H1, H2.
+  specialize (IH buf' w' F' Fl2).
+  destruct (asm_run (generic_step hs) (buf', w') ins) as [outs fin]. simpl in *.
+  rewrite IH. destruct (line_event (p, t) (has_delivery out)); inversion H1; subst; reflexivity.
+Qed.
+
+Lemma buf_fresh_init : buf_fresh [].
+Proof. constructor. Qed.
+
+Theorem stream_wrappers_correct : forall ins, Forall fresh_line ins ->
+  map (map a_wrapper) (fst (asm_run stream_step asm_init ins)) =
+  spec_wrapper (events ins (map has_delivery (fst (asm_run stream_step asm_init ins)))).
+Proof.
+  intros ins F. rewrite (asm_run_ext _ _ stream_step_generic). apply run_wrappers; [apply buf_fresh_init|exact F].
+Qed.
+
+Theorem queue_wrappers_correct : forall ins, Forall fresh_line ins ->
+  map (map a_wrapper) (fst (asm_run queue_step asm_init ins)) =
+  spec_wrapper (events ins (map has_delivery (fst (asm_run queue_step asm_init ins)))).
+Proof.
+  intros ins F. rewrite (asm_run_ext _ _ queue_step_generic). apply run_wrappers; [apply buf_fresh_init|exact F].
+Qed.
